@@ -237,6 +237,35 @@ def main():
             report(f"[{state}] `{sql}` ({cause}) raised {['ProgrammingError', 'DatabaseError'][obs[i][0]]} errno={obs[i][1]} sqlstate={[unstr(x) for x in obs[i][2]]}, "
                    f"expected {['ProgrammingError', 'DatabaseError'][model[i][0]]} {model[i][1]} {[unstr(x) for x in model[i][2]]}",
                    {"state": state, "statement": sql, "cause": cause, "observed": obs[i], "expected": model[i]})
+    # a statement text that WORKED a moment ago fails, with the same error as ever, once what it refers to is gone - on the same cursor and on
+    # another cursor of the session, and it changes nothing (no answer may be remembered by statement text)
+    fs_r, conn_r = setup()
+    again = [("UndefinedVariable", ["set c07v = 5"], "select $c07v + 1", ["unset c07v"]),
+             ("UndefinedVariable", ["set c07w = 1"], "delete from t where id <= $c07w", ["insert into t values (1, 'a')", "unset c07w"]),
+             ("UnknownTable", ["create table c07_gone (i int)", "insert into c07_gone values (1)"], "select * from c07_gone", ["drop table c07_gone"]),
+             ("UnknownColumn", ["alter table t add column c07_extra int"], "select c07_extra from t", ["alter table t drop column c07_extra"]),
+             ("UnknownSchema", ["create schema c07_s", "create table c07_s.x (i int)"], "select * from c07_s.x", ["drop schema c07_s cascade"])]
+    want_codes = core.model_eval("run_c07_code", [CID[c_] for c_, _, _, _ in again])
+    for (cause, pre, text, undo), want_code in zip(again, want_codes):
+        cur_r = conn_r.cursor()
+        ck.cov["evaluations"] += 1
+        ck.count("same-text-after-removal")
+        try:
+            for s_ in pre:
+                cur_r.execute(s_)
+            cur_r.execute(text)
+            conn_r.cursor().execute(text)
+            for s_ in undo:
+                cur_r.execute(s_)
+        except Exception as e:  # noqa: BLE001
+            raise core.MachineryError(f"same-text scenario set-up failed: {pre} {text} {undo}: {e}") from e
+        for who, c_ in (("the same cursor", cur_r), ("another cursor of the session", conn_r.cursor())):
+            got = observe_exc(lambda c_=c_: c_.execute(text))
+            if got is None or got[:2] != want_code[:2]:
+                report(f"{pre}; `{text}` (worked); {undo}; then the identical `{text}` on {who}: "
+                       + ("succeeded" if got is None else f"raised {got}") + f", expected {['ProgrammingError', 'DatabaseError'][want_code[0]]} {want_code[1]} ({cause})",
+                       {"statements": pre + [text] + undo + [text], "cause": cause, "observed": got, "expected": want_code})
+    fs_r.duck_conn.close()
     # sqlstate machine against a real cursor: every way an execute can end - engine success, a statement answered by a nop_regexes pattern,
     # connector errors of three causes, an exception that is not a connector error (syntax), and finally a closed connection
     fs, conn = setup()
